@@ -68,16 +68,27 @@ NextTb == IF Mutant = "reverse_tb"
           THEN CHOOSE i \in TBs : Runnable(i) /\ \A j \in TBs : Runnable(j) => j <= i
           ELSE CHOOSE i \in TBs : Runnable(i) /\ \A j \in TBs : Runnable(j) => i <= j
 
+(* a resumed tick wait that is not over yet: more repeats to go, or the until-condition was zero before this edge *)
+TickAgain(i) == \/ wsig[i][1] = "#rep" /\ wsig[i][2] > 1
+                \/ wsig[i][2] = 2 /\ sampled[wsig[i][1]] = 0
 TbStep ==
     /\ phase = "tb" /\ AnyRunnable
     /\ LET i == NextTb
            op == IF wait[i] = "ticked" THEN <<"resume">> ELSE IF wait[i] = "fired" THEN <<"resume2">> ELSE scripts[i][pc[i]] IN
        /\ pc' = IF wait[i] \in {"ticked", "fired"} THEN pc ELSE [pc EXCEPT ![i] = @ + 1]
        /\ wsig' = IF op[1] = "changed" THEN [wsig EXCEPT ![i] = <<op[2], 0>>]
-                  ELSE IF op[1] = "edge" THEN [wsig EXCEPT ![i] = <<op[2], op[3]>>] ELSE wsig
+                  ELSE IF op[1] = "edge" THEN [wsig EXCEPT ![i] = <<op[2], op[3]>>]
+                  ELSE IF op[1] = "tick" THEN [wsig EXCEPT ![i] = <<"", 0>>]
+                  ELSE IF op[1] = "repeat" THEN [wsig EXCEPT ![i] = <<"#rep", op[2]>>]
+                  ELSE IF op[1] = "until" THEN [wsig EXCEPT ![i] = <<op[2], 2>>]
+                  ELSE IF op[1] = "resume" /\ TickAgain(i) /\ wsig[i][1] = "#rep" THEN [wsig EXCEPT ![i] = <<"#rep", @[2] - 1>>]
+                  ELSE wsig
        /\ CASE op[1] = "resume" ->       \* the tick() this testbench waited for has happened: it receives the sample
-                 /\ obs' = Append(obs, <<i, "tick", now, sampled["y"], sampled["r"], sampled["q"]>>)
-                 /\ wait' = [wait EXCEPT ![i] = "none"]
+                 \* tick().repeat(n) / tick().until(cond) wait again without returning (samples of earlier edges are dropped)
+                 /\ IF TickAgain(i)
+                    THEN obs' = obs /\ wait' = [wait EXCEPT ![i] = "tick"]
+                    ELSE /\ obs' = Append(obs, <<i, "tick", now, sampled["y"], sampled["r"], sampled["q"]>>)
+                         /\ wait' = [wait EXCEPT ![i] = "none"]
                  /\ UNCHANGED <<nxt, phase, deadline, expect>>
             [] op[1] = "resume2" ->      \* the changed() / edge() wait is over: the captured value is the settled one
                  /\ obs' = Append(obs, <<i, "fired", now, wsig[i][1], curr[wsig[i][1]]>>)
@@ -100,6 +111,9 @@ TbStep ==
             [] op[1] = "time" ->
                  /\ obs' = Append(obs, <<i, "time", now>>)
                  /\ UNCHANGED <<nxt, phase, wait, deadline, expect>>
+            [] op[1] \in {"repeat", "until"} ->   \* tick().repeat(n): the n-th edge; tick().until(s): the first edge at
+                 /\ wait' = [wait EXCEPT ![i] = "tick"]   \* which s, sampled like everything else just before the edge, is non-zero
+                 /\ UNCHANGED <<nxt, obs, deadline, expect, phase>>
             [] op[1] = "tick" ->         \* resumes after the registers have updated; sample = values before the edge
                  /\ wait' = [wait EXCEPT ![i] = "tick"]
                  /\ UNCHANGED <<nxt, obs, deadline, expect, phase>>
